@@ -503,6 +503,8 @@ def parser_rules(P, R):
     R.floor('C12.COPY.1', 1)
     expansion_total(P, R, pf)
     expansion_count(P, R, pf)
+    c13.full_range(P, R, [pf], 'C12.TAB.2', parts=('fullform',))
+    R.floor('C12.TAB.2', 1)
     rules.no_static_locals(P, R, 'C12.WMC.1', c13.scope(P) + [P.need_fn('irc_ntop')], 'address parser and printer')
     mapped_form(P, R, pf)
     syntax_only(P, R, pf)
